@@ -41,6 +41,7 @@ cfg("C04x", "Classes4", "OutsC04", "{2}", "RetsOne", "AdvsExact", "DecsAll", "Ra
 cfg("C05", "Classes4", "OutsC05", "{0}", "RetsAll", "AdvsExact", "DecsAll", "RasSome", BOTH, 1, "ConfigsC05", False)
 cfg("C05x", "Classes4", "OutsC05x", "{0}", "RetsAll", "AdvsExact", "DecsSleep", "RasSome", EXEC, 1, "ConfigsC05x", True)
 cfg("C05", "Classes4", "OutsC05", "{0}", "RetsAll", "AdvsExact", "DecsAll", "RasSome", BOTH, 1, "ConfigsC05", False, edurs="SomeDur")
+cfg("C05y", "Classes4", "OutsC05x", "{0}", "RetsDay", "AdvsExact", "DecsSleep", "RasNone", EXEC, 1, "ConfigsC05y", True)
 cfg("C10", "Classes4", "OutsC10", "{1}", "RetsTwoSmall", "AdvsTwo", "DecsSleep", "RasNone", EXEC, 3, "ConfigsC10", False, gaps="GapsC10")
 cfg("C10x", "Classes4", "OutsC10", "{1}", "RetsOne", "AdvsExact", "DecsSleep", "RasNone", EXEC, 3, "ConfigsC10x", True, gaps="GapsC10")
 # back-offs as long as the budget window, sleepers that return without time passing
